@@ -127,7 +127,22 @@ func genHistory(r *rand.Rand, g *wsclient.Gen, seed int64) *history {
 	newSub := func(id string, boom bool) wsclient.Step {
 		seq++
 		tag := fmt.Sprintf("t%d", seq)
-		q, cells := g.GenQuery(tag, wsclient.QueryOpts{Slow: true, Res: true, Boom: boom})
+		// a failing subscription fails in a plain resolver, inside the public
+		// reactive.Cache after registering a resource (live-query pattern), or both
+		opts := wsclient.QueryOpts{Slow: true, Res: true}
+		if boom {
+			switch r.Intn(3) {
+			case 0:
+				opts.Boom = true
+			case 1:
+				opts.LQ = true
+			default:
+				opts.Boom, opts.LQ = true, true
+			}
+		} else if r.Intn(4) == 0 {
+			opts.LQ = true
+		}
+		q, cells := g.GenQuery(tag, opts)
 		if live[id] == nil && len(live) < h.Cfg.MaxSubs {
 			live[id] = &liveSub{tag: tag, cells: cells}
 		}
@@ -396,7 +411,7 @@ func pinnedHistory(idx int, g *wsclient.Gen, seed int64) *history {
 }
 
 // stormRounds is set by TestCheck from the tier.
-var stormRounds = 2000
+var stormRounds = 1600
 
 const numPinned = 8
 
@@ -406,13 +421,13 @@ func TestCheck(t *testing.T) {
 	defer run.Finish()
 	run.Rule("histories over one websocket connection (scripted JSONSocket, recording SubscriptionLogger, WithMaxSubscriptions 2-4, 0-9 pass-through middlewares): 10-35 steps of subscribe / unsubscribe / mutate / echo / url / malformed envelopes with ids from a pool of 3 shared by ALL message types (plus fresh ids), undecodable frames, " +
 		"writes and invalidate-everything steps, resolver failures (initial and on re-run; plain, safe, and errors wrapping context.Canceled / DeadlineExceeded of a resolver-owned context; failing mutations), context cancellation, socket close at a random step (ReadJSON error) or through a failing WriteJSON, gate steps (a resolver of an in-flight run is held while an unsubscribe(+re-subscribe) / close / cancel / colliding mutate / subscribe lands), " +
-		"an unsubscribe-all / close sent a fraction of the write-then-read delay after a write that invalidates an idle subscription, a failing-subscribe+unsubscribe+re-subscribe motif, unsubscribe+subscribe played while a closeSubscription call is held at its entry, writes injected at hook points; every subscription query carries a unique tag that its resolvers log and a field that creates a reactive.Resource with a Cleanup counter. " +
-		"reactive.WriteThenReadDelay is 0 in 2/5 of the histories and 0.5-3 ms in the rest. Every history ends with socket close, three invalidate-everything settle rounds and a quiescence wait. 8 pinned histories first; the last four are stress histories, each 2000 (thorough 6000) rounds of subscribe x4 / one write invalidating all / mutation + unsubscribe x4 pipelined at once, with a per-round timing jitter (Stop racing the wake-up of a re-run or of the initial run, under RerunImmediately contention). Non-trivial = the history has an end-by-close, an id collision or a failure. Distinct = step-kind sequence + end kinds of the instances.")
+		"an unsubscribe-all / close sent a fraction of the write-then-read delay after a write that invalidates an idle subscription, a failing-subscribe+unsubscribe+re-subscribe motif, unsubscribe+subscribe played while a closeSubscription call is held at its entry, writes injected at hook points; every subscription query carries a unique tag that its resolvers log and a field that creates a reactive.Resource with a Cleanup counter; some also select a live-query field that registers a counted Resource inside the public reactive.Cache and then fails (initially / transiently on re-runs). " +
+		"reactive.WriteThenReadDelay is 0 in 2/5 of the histories and 0.5-3 ms in the rest. Every history ends with socket close, three invalidate-everything settle rounds and a quiescence wait. 8 pinned histories first; the last four are stress histories, each 1600 (thorough 6000) rounds of subscribe x4 / one write invalidating all / mutation + unsubscribe x4 pipelined at once, with a per-round timing jitter (Stop racing the wake-up of a re-run or of the initial run, under RerunImmediately contention). Non-trivial = the history has an end-by-close, an id collision or a failure. Distinct = step-kind sequence + end kinds of the instances.")
 	run.Assume("a subscription instance is a logger Subscribe call inside the handle window of a subscribe message; it ends at the first of: logger Unsubscribe(id), read-enter after its unsubscribe message, ServeJSONSocket returned")
 	run.Assume("Unsubscribe logger calls for ids of mutations (never subscribed) are tolerated")
 	run.Assume("rejecting a subscribe early (a mutation in flight occupies a slot or an id) is not a violation")
 	n := run.N(80, 3000)
-	stormRounds = run.N(2000, 6000)
+	stormRounds = run.N(1600, 6000)
 	agg := vlib.NewHitAgg()
 	defer agg.Report(run)
 	run.Each(n, 1, func(i int) {
